@@ -181,6 +181,15 @@ def bitfield_decl(case, vis=None, docs=False):
         for l in field_decl(f2, vis=("pub " if case.get("pub_fields") else "")):
             body.append("    " + l)
     body.append("}")
+    if case.get("user_impls"):
+        # the user's own trait impls for the generated type: part of the program, so every compile-outcome unit sees them next to the declaration
+        T, n = case["name"], case["base"]
+        body += ["impl ::core::convert::From<u%d> for %s { fn from(v: u%d) -> Self { %s::new_with_raw_value(v) } }" % (n, T, n, T),
+                 "impl ::core::convert::From<%s> for u%d { fn from(v: %s) -> Self { v.raw_value() } }" % (T, n, T),
+                 "impl ::core::cmp::PartialEq for %s { fn eq(&self, o: &Self) -> bool { self.raw_value() == o.raw_value() } }" % T,
+                 "impl ::core::fmt::Display for %s { fn fmt(&self, f: &mut ::core::fmt::Formatter<'_>) -> ::core::fmt::Result { f.write_str(\"reg\") } }" % T,
+                 "impl ::core::hash::Hash for %s { fn hash<H: ::core::hash::Hasher>(&self, h: &mut H) { self.raw_value().hash(h) } }" % T,
+                 "impl ::core::ops::Not for %s { type Output = Self; fn not(self) -> Self { self } }" % T]
     if frag and d is not None:
         mname = "declare_%s" % case["name"].lower()
         doc_lines = [l for l in lines if l.startswith("///") and l is lines[-1]]
@@ -442,13 +451,6 @@ def subject_module(case):
         "Some(%s)" % hex(case["default"]["value"]) if case["default"] else "None",
         "true" if has_builder else "false", "true" if case["debug"] else "false",
         ", ".join(rstr(t) for t in case.get("tags", []))))
-    if case.get("user_impls"):
-        L.append("    impl ::core::convert::From<u%d> for %s { fn from(v: u%d) -> Self { %s::new_with_raw_value(v) } }" % (n, T, n, T))
-        L.append("    impl ::core::convert::From<%s> for u%d { fn from(v: %s) -> Self { v.raw_value() } }" % (T, n, T))
-        L.append("    impl ::core::cmp::PartialEq for %s { fn eq(&self, o: &Self) -> bool { self.raw_value() == o.raw_value() } }" % T)
-        L.append("    impl ::core::fmt::Display for %s { fn fmt(&self, f: &mut ::core::fmt::Formatter<'_>) -> ::core::fmt::Result { f.write_str(\"reg\") } }" % T)
-        L.append("    impl ::core::hash::Hash for %s { fn hash<H: ::core::hash::Hasher>(&self, h: &mut H) { self.raw_value().hash(h) } }" % T)
-        L.append("    impl ::core::ops::Not for %s { type Output = Self; fn not(self) -> Self { self } }" % T)
     L.append("    pub struct G(%s);" % T)
     L.append("    pub fn ctor() -> Box<dyn Subject> { Box::new(G(%s::ZERO)) }" % T)
     L.append("    fn is_copy<X: Copy>() {}")
